@@ -63,9 +63,11 @@ def c01(ck):
 def c13(ck):
     ck.rule = ("every collection builtin of the property (49 names) x every argument tuple of arity 0..2 over a "
                "33-value pool and arity 3 over a pool prefix; allowed outcome from Coll.tla/Def.tla; replayed as "
-               "(f 'a1 'a2 ..) through lisp.EVAL in a fresh environment; distinct = distinct calls on which the "
-               "oracle does not abstain")
-    consts = {"MaxAr": 2, "Pool3": 8 if ck.quick else 16}
+               "(f 'a1 'a2 ..) through lisp.EVAL in a fresh environment; purity: one value (12 expressions whose result "
+               "the reader/evaluator builds) passed twice to the same builtin with different other arguments, from "
+               "text: both results the model's, the value intact; distinct = distinct calls on which the oracle does "
+               "not abstain")
+    consts = {"MaxAr": 2, "Pool3": 8 if ck.quick else 16, "Pure2": 4 if ck.quick else 10}
     oracle_stepfiles(ck)
     gen_and_replay(ck, "GenC13", consts, timeout=1500)
     ck.exhaustive = True
